@@ -119,7 +119,8 @@ def oracle_selfcheck():
 
 
 def loop_task(seed):
-    spec = wp.spec_from_seed(seed, boundary=False)
+    big = seed % 6 == 0  # a sixth of the runs: tens of mutations (two-digit clone counts), five samples
+    spec = wp.spec_from_seed(seed, boundary=False, n_mut=(12 + seed % 11) if big else None, n_samples=5 if big else None)
     spec["options"]["concentration_update"] = True
     spec["options"]["outlier_prob"] = random.Random(seed).choice([0.0, 0.01, 0.3, 0.5])
     h = wp.run_pipeline(spec)
